@@ -68,11 +68,40 @@ class KeyReport:
 
 
 def exclusive(c1, c2) -> bool:
+    """No truth assignment of the condition atoms satisfies both path conditions (atoms may
+    be conjunctions / disjunctions that one of the paths carries unsplit)."""
     s1 = {(t, p) for t, p in c1}
     for t, p in c2:
         if (t, not p) in s1:
             return True
-    return False
+    atoms: list = []
+
+    def collect(t):
+        if t[0] == "u" and t[1] == "not":
+            collect(t[2])
+        elif t[0] == "bool":
+            for x in t[2]:
+                collect(x)
+        elif t not in atoms:
+            atoms.append(t)
+
+    def value(t, asg):
+        if t[0] == "u" and t[1] == "not":
+            return not value(t[2], asg)
+        if t[0] == "bool":
+            vs = [value(x, asg) for x in t[2]]
+            return all(vs) if t[1] == "and" else any(vs)
+        return asg[t]
+    for t, _ in list(c1) + list(c2):
+        collect(t)
+    if not any(t[0] in ("bool", "u") for t, _ in list(c1) + list(c2)) or len(atoms) > 10:
+        return False
+    import itertools
+    for bits in itertools.product((False, True), repeat=len(atoms)):
+        asg = dict(zip(atoms, bits))
+        if all(value(t, asg) == bool(p) for t, p in list(c1) + list(c2)):
+            return False
+    return True
 
 
 def in_loop_markers(cond):
